@@ -501,6 +501,9 @@ def run_replay(path):
     build.install_signal_cleanup()
     with open(path) as f:
         doc = json.load(f)
+    if doc.get("engine") == "c10":
+        from props import c10
+        return c10.replay(doc, path)
     overlay = build.build()
     w = Worker(overlay, doc["impl"], doc["hashseed"], 0)
     try:
